@@ -59,6 +59,8 @@ pub fn config_name() -> String {
             s.push_str("E-neon");
         } else if cfg_simd128() {
             s.push_str("E-wasm");
+        } else if cfg!(memchr_emu_arch = "aarch64") {
+            s.push_str("E-a64nn");
         } else {
             s.push_str("E-none");
         }
